@@ -194,6 +194,11 @@ type diffResult struct {
 // compareRun applies the answer-sequence oracle (C01 and friends): same answers in the same order, same
 // events in the same order, same termination (exhausted / error with the same formal).
 func compareRun(d *DiffMeta, o *ref.Outcome, out *run.Outcome, compareEvents bool) diffResult {
+	return compareRunStep(d, o, out, 0, compareEvents)
+}
+
+// compareRunStep is compareRun for step number step of the case.
+func compareRunStep(d *DiffMeta, o *ref.Outcome, out *run.Outcome, step int, compareEvents bool) diffResult {
 	if o.M.Unsupported != "" {
 		return diffResult{Status: Inconclusive, Msg: "reference: " + o.M.Unsupported}
 	}
@@ -212,7 +217,10 @@ func compareRun(d *DiffMeta, o *ref.Outcome, out *run.Outcome, compareEvents boo
 			return diffResult{Status: Violated, Msg: fmt.Sprintf("loading the program failed (setup %d): %s", i, e.Text)}
 		}
 	}
-	st := res.Steps[0]
+	if step >= len(res.Steps) {
+		return diffResult{Status: Inconclusive, Msg: "worker result lacks the step"}
+	}
+	st := res.Steps[step]
 	max := d.Max
 	if max <= 0 {
 		max = 30
